@@ -84,7 +84,7 @@ func c15(c *Ctx) {
 			if s%2 == 0 { // the built-in state handlers see the line first: what THEY are given is theirs too
 				cn.EnableStateTracking()
 			}
-			for _, ev := range []string{"PRIVMSG", "CTCP", "ACTION", "353", "MODE"} { // a \x01-wrapped PRIVMSG is delivered as CTCP
+			for _, ev := range []string{"PRIVMSG", "CTCP", "ACTION", "353", "MODE", "433"} { // a \x01-wrapped PRIVMSG is delivered as CTCP
 				if !lone {
 					cn.HandleFunc(ev, keeper)
 					cn.HandleBG(ev, client.HandlerFunc(keeper))
@@ -118,7 +118,10 @@ func c15(c *Ctx) {
 				// lines the built-in state handlers look at before the user's handlers get their copies: a names reply in
 				// the RFC 1459 layout (three parameters), one in the RFC 2812 layout, a channel MODE
 				raw := []string{fmt.Sprintf(":irc.test 353 me #chan%d :alice @bob +carol", i), fmt.Sprintf(":irc.test 353 me = #chan%d :alice @bob", i),
-					fmt.Sprintf(":op!o@h MODE #chan%d +ov alice bob", i)}[c.R.N(3)]
+					fmt.Sprintf(":op!o@h MODE #chan%d +ov alice bob", i),
+					// one the built-in handler chokes on (a 433 without the refused nick: it panics, the panic is recovered and
+					// logged): what the recovery does with the line is its own business too
+					fmt.Sprintf(":irc.test 433 :Nickname is already in use, please pick another one and try again (%d)", i)}[c.R.N(4)]
 				raws = append(raws, raw)
 				sess.srv.SendLine(raw)
 				continue
